@@ -1,6 +1,8 @@
 import Proofs.Lemmas.HeapSpecLocal
 import Proofs.Lemmas.RefSlotLocal
 import Generated.C06ScalarWrites
+import Proofs.Lemmas.Summary
+import Generated.C06ArrayFields
 /-!
 # C06 — arrays are values: writes through a copy never show through the original
 
@@ -656,5 +658,156 @@ example : Model.RefSlot.vals (Model.RefSlot.run .counted 2 1 [.lit 0 [1, 2], .bi
     [[9, 2], [9, 2]] := by decide
 example : ((Model.RefSlot.run .counted 2 1 [.lit 0 [1, 2], .bind .var 0 0 0, .copy 1 0, .store 1 0 9]).heap.map (·.cnt)) =
     [0, 0, 1] := by decide
+
+/-! ## Round 6: a cached summary of an array's contents (seeded change C06-scalaronly-flag-stale)
+
+`Model.Summary`: an array object carries, next to its elements, a flag "held no array when last
+copied"; the copy routine trusts it (`Cfg.useHint`) and copies a flagged array by copying the
+element list only. The flag is a statement about the element list, so it is true only as long as
+EVERY editor of the list keeps it (`Cfg.maintains : Editor → Bool`). -/
+
+section Summary
+open Spec.SummaryVal Proofs.Lemmas.Summary
+
+/-- **Copies are deep for all histories iff every editor maintains the summary.** For a copy
+routine that trusts the flag: the values of all variables equal the immutable-value semantics
+after EVERY program (any number of variables, any length: literals, copies, the four kinds of
+editor at any position, removals, in-place writes on inner arrays) exactly when every editor
+clears the flag when it stores an array. -/
+theorem C06_summary_copies_deep_iff (cfg : Model.Summary.Cfg) (hu : cfg.useHint = true) :
+    (∀ nv p, Spec.SummaryVal.abs (Model.Summary.run cfg nv p) = Spec.SummaryVal.run nv p) ↔ ∀ e, cfg.maintains e = true := by
+  constructor
+  · intro h e
+    cases hm : cfg.maintains e with
+    | true => rfl
+    | false => exact absurd (h 3 (Proofs.Lemmas.Summary.witness e)) (stale_leaks cfg hu e hm)
+  · intro h nv p
+    exact sim cfg (fun _ => h) nv p
+
+/-- a copy routine that consults nothing but the elements (this tree) needs nothing from the editors -/
+theorem C06_summary_unconsulted_value_semantics (cfg : Model.Summary.Cfg) (hu : cfg.useHint = false) (nv : Nat) (p : List Model.Summary.Op) :
+    Spec.SummaryVal.abs (Model.Summary.run cfg nv p) = Spec.SummaryVal.run nv p :=
+  sim cfg (fun h => by rw [hu] at h; cases h) nv p
+
+/-- the invariant behind it: when every editor maintains the flag, after every program a
+flagged array holds scalars only -/
+theorem C06_summary_flag_sound (cfg : Model.Summary.Cfg) (h : ∀ e, cfg.maintains e = true) (nv : Nat) (p : List Model.Summary.Op) :
+    ∀ a ∈ (Model.Summary.run cfg nv p).vars, a.hint = true → ∀ e ∈ a.elems, e.isSc = true :=
+  hint_sound cfg h nv p
+
+/-- **One editor that leaves the flag alone is enough**: flat at the last copy, an array enters
+through that editor, copy, nested write through the copy — the source changes. -/
+theorem C06_summary_stale_counterexample (cfg : Model.Summary.Cfg) (hu : cfg.useHint = true) (e : Model.Summary.Editor)
+    (he : cfg.maintains e = false) :
+    Spec.SummaryVal.abs (Model.Summary.run cfg 3 (Proofs.Lemmas.Summary.witness e)) ≠ Spec.SummaryVal.run 3 (Proofs.Lemmas.Summary.witness e) :=
+  stale_leaks cfg hu e he
+
+/-- the witness, replayed first on the real code by the harness:
+`$v0 = [1, 2]; $v1 = $v0; array_push($v1, [10, 20]); $v2 = $v1; $v2[2][0] = 99;` -/
+theorem C06_summary_witness_outcomes :
+    Spec.SummaryVal.abs (Model.Summary.run Model.Summary.Cfg.stale 3 (Proofs.Lemmas.Summary.witness Model.Summary.Editor.libfn)) = [[.sc 1, .sc 2], [.sc 1, .sc 2, .arr [99, 20]], [.sc 1, .sc 2, .arr [99, 20]]] ∧
+    Spec.SummaryVal.abs (Model.Summary.run Model.Summary.Cfg.stale 3 (Proofs.Lemmas.Summary.witness Model.Summary.Editor.store)) = [[.sc 1, .sc 2], [.sc 1, .sc 2, .arr [10, 20]], [.sc 1, .sc 2, .arr [99, 20]]] ∧
+    Spec.SummaryVal.abs (Model.Summary.run Model.Summary.Cfg.maintained 3 (Proofs.Lemmas.Summary.witness Model.Summary.Editor.libfn)) = [[.sc 1, .sc 2], [.sc 1, .sc 2, .arr [10, 20]], [.sc 1, .sc 2, .arr [99, 20]]] ∧
+    Spec.SummaryVal.abs (Model.Summary.run Model.Summary.Cfg.plain 3 (Proofs.Lemmas.Summary.witness Model.Summary.Editor.method)) = [[.sc 1, .sc 2], [.sc 1, .sc 2, .arr [10, 20]], [.sc 1, .sc 2, .arr [99, 20]]] ∧
+    Spec.SummaryVal.run 3 (Proofs.Lemmas.Summary.witness Model.Summary.Editor.libfn) = [[.sc 1, .sc 2], [.sc 1, .sc 2, .arr [10, 20]], [.sc 1, .sc 2, .arr [99, 20]]] := by
+  decide
+
+end Summary
+
+/-! ### The tree's side of it, regenerated (`Generated.C06ArrayFields`)
+
+`CloneArrayValue` / `CloneObjectValue` read the element storage and nothing else about the
+contents, because there is nothing else: the field lists below are all there is. A new field is
+`derived` until examined — a `shapeChanged` entry names it — and `C06_derived_fields_maintained`
+is `∀ e, cfg.maintains e` of `C06_summary_copies_deep_iff` read off the source: every site that
+edits the element storage assigns every derived field of its owner. -/
+
+open Model.ArrayFields
+
+def knownFields : List (String × String × String) := [
+  ("ArrayValue", "List", "storage"), ("ArrayValue", "iterator", "cursor"), ("ArrayValue", "IndirectOverloadClass", "tag"),
+  ("ObjectValue", "Value", "embedded"), ("ObjectValue", "Context", "embedded"), ("ObjectValue", "property", "storage"),
+  ("ObjectValue", "iterator", "cursor"), ("ObjectValue", "IndirectOverloadClass", "tag")]
+
+/-- functions that edit the element storage of an array (the edit-history stream of the harness
+draws its editors from the script-level entry points of these; a new one belongs there too) -/
+def knownListEditors : List (String × String) := [
+  ("data/value_array.go", "ArrayValue.OwnSlot"),
+  ("data/value_array.go", "ArrayValue.SetIntKey"),
+  ("data/value_array.go", "ArrayValue.storeSlot"),
+  ("data/value_array.go", "ArrayValue.SetStringKey"),
+  ("data/value_array.go", "ArrayValue.normalizeDenseIntKeys"),
+  ("data/value_array.go", "ArrayValue.UnsetKey"),
+  ("data/value_array_pop.go", "ArrayValuePop.Call"),
+  ("data/value_array_push.go", "ArrayValuePush.Call"),
+  ("data/value_array_reverse.go", "ArrayValueReverse.Call"),
+  ("data/value_array_shift.go", "ArrayValueShift.Call"),
+  ("data/value_array_sort.go", "ArrayValueSort.Call"),
+  ("data/value_array_splice.go", "ArrayValueSplice.Call"),
+  ("data/value_array_unshift.go", "ArrayValueUnshift.Call"),
+  ("data/value_object.go", "CloneObjectValue"),
+  ("data/value_object.go", "ObjectValue.UnsetProperty"),
+  ("data/value_object.go", "ObjectValue.SetProperty"),
+  ("node/array.go", "setArrayLiteralEntry"),
+  ("node/call_method.go", "CallMethod.handleFuncValue"),
+  ("node/index.go", "IndexExpression.SetValue"),
+  ("node/index.go", "indexSetValueOnContainer"),
+  ("node/new.go", "paramSetValue"),
+  ("node/value_reference.go", "ValueReference.resolveIndexRef"),
+  ("std/php/array/array_flip.go", "ArrayFlipFunction.Call"),
+  ("std/php/array/array_pop.go", "ArrayPopFunction.Call"),
+  ("std/php/array/array_push.go", "ArrayPushFunction.Call"),
+  ("std/php/array/array_shift.go", "ArrayShiftFunction.Call"),
+  ("std/php/array/array_splice.go", "ArraySpliceFunction.Call"),
+  ("std/php/array/array_unshift.go", "ArrayUnshiftFunction.Call"),
+  ("std/php/array/krsort.go", "KrsortFunction.Call"),
+  ("std/php/array/usort.go", "UsortFunction.Call"),
+  ("std/php/core/array.go", "ArrayFunction.Call"),
+  ("std/php/spl/array_iterator.go", "ArrayIteratorAppendMethod.Call"),
+  ("std/php/spl/array_object.go", "aoObjectToArrayValue"),
+  ("std/php/spl/array_object.go", "aoOffsetSet"),
+  ("std/php/spl/array_object.go", "ArrayObjectAppendMethod.Call"),
+  ("std/php/spl/caching_iterator.go", "ciUpdateCache"),
+  ("std/php/spl/recursive_array_iterator.go", "raiValueToStorage"),
+  ("std/php/spl/spl_doubly_linked_list.go", "splListRemoveAt"),
+  ("std/php/spl/spl_doubly_linked_list.go", "SplDLLPushMethod.Call"),
+  ("std/php/spl/spl_doubly_linked_list.go", "SplDLLPopMethod.Call"),
+  ("std/php/spl/spl_doubly_linked_list.go", "SplDLLShiftMethod.Call"),
+  ("std/php/spl/spl_doubly_linked_list.go", "SplDLLUnshiftMethod.Call"),
+  ("std/php/spl/spl_doubly_linked_list.go", "SplDLLOffsetSetMethod.Call"),
+  ("std/php/spl/spl_heap.go", "splHeapBubbleUp"),
+  ("std/php/spl/spl_heap.go", "splHeapBubbleDown"),
+  ("std/php/spl/spl_heap.go", "splHeapInsert"),
+  ("std/php/spl/spl_heap.go", "splHeapExtractTop"),
+  ("std/php/spl/spl_queue.go", "SplQueueEnqueueMethod.Call"),
+  ("std/php/spl/spl_queue.go", "SplQueueDequeueMethod.Call"),
+  ("std/php/unset.go", "UnsetFunction.Call"),
+  ("std/serializer/json/json_serializer.go", "JsonSerializer.UnmarshalArray")]
+
+/-- **An array object holds its elements and nothing about them**: no field of `ArrayValue` /
+`ObjectValue` beyond the examined ones. (`scalarOnly bool` would be listed as `derived`.) -/
+theorem C06_array_fields_known :
+    (∀ f ∈ Generated.C06ArrayFields.fields, (f.owner, f.name, f.role) ∈ knownFields) ∧
+    Generated.C06ArrayFields.shapeChanged = [] := by
+  decide
+
+/-- **Every editor of the element storage maintains every derived field** of its owner. -/
+theorem C06_derived_fields_maintained :
+    unmaintained Generated.C06ArrayFields.fields Generated.C06ArrayFields.listEdits = [] := by
+  decide
+
+/-- the editors of element storage are the examined ones -/
+theorem C06_list_editors_known :
+    ∀ e ∈ Generated.C06ArrayFields.listEdits, (e.file, e.fn) ∈ knownListEditors := by
+  decide
+
+/- non-vacuity: the table holds the setters and the library editors; the obligation does reject -/
+example : 60 ≤ Generated.C06ArrayFields.listEdits.length ∧ 8 ≤ Generated.C06ArrayFields.fields.length := by decide
+example : ("std/php/array/array_push.go", "ArrayPushFunction.Call") ∈ knownListEditors ∧ ("data/value_array_push.go", "ArrayValuePush.Call") ∈ knownListEditors := by decide
+example : unmaintained [⟨"ArrayValue", "List", "storage"⟩, ⟨"ArrayValue", "scalarOnly", "derived"⟩]
+    [⟨"data/value_array.go", "ArrayValue.Append", "ArrayValue", "list", 0, ["scalarOnly"]⟩,
+     ⟨"std/php/array/array_push.go", "ArrayPushFunction.Call", "ArrayValue", "list", 0, []⟩] =
+    [⟨"std/php/array/array_push.go", "ArrayPushFunction.Call", "ArrayValue", "list", 0, []⟩] := by decide
+example : Model.Summary.Cfg.stale.maintains .libfn = false ∧ Model.Summary.Cfg.stale.useHint = true := by decide
 
 end C06
